@@ -151,6 +151,13 @@ def cast(ctx) -> None:
     ctx.check(dc is not None and core.src(dc.key) == f'{e}.name', 'C15.order', fn, 'the result columns carry the query names', fn.node, key='cast:names')
     first = fn.body[0] if not isinstance(fn.body[0], ast.Expr) else fn.body[1]
     ctx.check(isinstance(first, ast.If) and core.src(first.test) in ('actual == expected', 'expected == actual'), 'C15.order', fn, 'data is returned unchanged only for equal schemas', first, key='cast:identity')
+    # every value of a column whose kind does not match is cast - unconditionally (0, 0.0, False and '' are values, not "nulls")
+    casts = [c for c in core.calls_in(fn.node) if isinstance(c.func, ast.Attribute) and c.func.attr == 'cast' and core.src(c.func.value) == f'{e}.kind']
+    okc = len(casts) == 1
+    if okc:
+        comp = next((a for a in core.ancestors(casts[0]) if isinstance(a, (ast.ListComp, ast.GeneratorExp))), None)
+        okc = comp is not None and comp.elt is casts[0] and len(comp.generators) == 1 and not comp.generators[0].ifs and core.src(casts[0].args[0]) == core.src(comp.generators[0].target)
+    ctx.check(okc, 'C15.order', fn, 'each value of a non-matching column goes through the expected kind\'s cast - no per-value condition or filter', casts[0] if casts else fn.node, key='cast:every-value')
 
 
 def slicer(ctx) -> None:
@@ -178,6 +185,14 @@ def tabular(ctx) -> None:
         ci = prog.cls(f'{INTERNAL}:{name}')
         left = ci.abstract_names()
         ctx.check(not left, 'R-ABSTRACT', ci.ref, f'{name} implements {members} (unresolved: {sorted(left)})', key=f'{name}:abstract', loc=ci.module.relpath)
+    # a selection always goes through the given indices: no early return that hands back the receiver (a full-width index list
+    # may still permute or repeat columns) and no alternative path for some index types
+    for name in ('Dense', 'Frame'):
+        for mname in ('take_rows', 'take_columns'):
+            fn = prog.func(f'{INTERNAL}:{name}.{mname}')
+            idx = fn.param_names[1]
+            rets = [r for r in core.walk_local(fn.node) if isinstance(r, ast.Return)]
+            ctx.check(len(rets) == 1 and rets[0].value is not None and idx in core.names_in(rets[0].value) and not cfg.cguards(rets[0], fn.node), 'C15.take', fn, f'{name}.{mname} has one unconditional result, computed from `{idx}`', fn.node, key=f'{name}.{mname}:single-path')
     dense = prog.cls(f'{INTERNAL}:Dense')
     # Dense keeps a row-major ndarray: the effective axis of a take is (axis XOR receiver-transposed) and the
     # constructor must interpret the result in the orientation it has (from_columns iff transposed)
